@@ -314,6 +314,7 @@ type recorder struct {
 	calls   int
 	failed  int // call number at which the error was returned first
 	ops     []optimize.Operation
+	lastOp  optimize.Operation
 	initN   int
 	badStat string
 }
@@ -329,7 +330,9 @@ func (r *recorder) Init() error {
 
 func (r *recorder) Record(l *optimize.Location, op optimize.Operation, st *optimize.Stats) error {
 	r.calls++
+	r.lastOp = op
 	if len(r.ops) < 1<<16 {
+		// only a prefix of a very long run is kept
 		r.ops = append(r.ops, op)
 	}
 	if r.failAt > 0 && (r.calls == r.failAt || r.calls > r.failAt && !r.once) {
